@@ -103,6 +103,9 @@ func propC03(c *Ctx, r *Report) {
 	rulePayoutEntryPerRequest(c, r, "C03-R14/payout-entry-per-request")
 	r.rule("C03-R15/loopvar-alias", 1, "no address of a per-loop variable is retained across iterations in block processing")
 	ruleLoopVarAlias(c, r, "C03-R15/loopvar-alias", c.RSync)
+	r.rule("C03-R16/debit-own-input", 1, "recordBatch debits the asset and amount of the transaction it is applying")
+	ruleDebitOwnInput(c, r, "C03-R16/debit-own-input")
+	ruleAnyOfFlags(c, r, "C03-R17/any-of-flags")
 
 	// R1
 	r.rule("C03-R1/debit-guard", 2, "the debit statement is guarded by the pending-balance comparison")
